@@ -85,6 +85,8 @@ SPEC = {
             // no reference to or from a removed node remains (removed: present on entry, absent on exit; includes the node itself when it existed)
             delete_target_references ==> no_dangling(final(self).references@, old(self).node_map@, final(self).node_map@, None),
             old(self).node_map@.contains_key(*node_id) ==> r,
+            // false means there was nothing to delete (the node management service answers BadNodeIdUnknown and relies on this: C34)
+            !r ==> final(self).node_map@ =~= old(self).node_map@ && final(self).references@ =~= old(self).references@,
         // terminates for every reference graph, cycles included: each recursive call works on fewer nodes
         decreases old(self).node_map@.dom().len(),'''),
 }
